@@ -243,6 +243,14 @@ pub fn run_peer(
         .current_dir(&scratch.path)
         .stdin(Stdio::piped())
         .stderr(Stdio::from(err_file));
+    // every other scenario lives at another time with time passing quickly
+    // (clock seam): when output reaches the peer does not depend on clocks
+    let h = crate::rng::hash_bytes(sc.source.as_bytes());
+    if h % 2 == 0 {
+        for (k, v) in crate::procworld::clock_env_for(h) {
+            cmd.env(k, v);
+        }
+    }
     if fault == StdoutFault::DevFull {
         let full = std::fs::OpenOptions::new()
             .write(true)
